@@ -269,7 +269,7 @@ op_log4:
 ///   1 NUMBER 2 TIMESTAMP 3 PREVRANDAO 4 CHAINID 5 BASEFEE 6 GASPRICE 7 COINBASE 8 CALLER 9 ORIGIN
 ///   10..13 BLOCKHASH(n-1), (n-2), (n-3), (n-256)   14 BLOCKHASH(n-257)
 ///   15 success flag + 1 of STATICCALL 0xfa getTxId()   16 returndatasize + 1   17 first word
-///   18 a run counter (so that every call changes state)
+///   18 a run counter (every execution that is part of the state adds one; Brc20Ref.ProbeWrite)
 pub fn probe_runtime() -> Vec<u8> {
     let mut src = String::new();
     let simple = [
